@@ -398,6 +398,10 @@ def run(ctx):
     # verdict premise of L-SOUND, under C01's own names: valid is defined exactly on completed tableaux with an argument and means "no open branch"
     from checks import c17
     ctx.restate(c17.verdict_obligations, 'C17.verdict.', 'C01.verdict.')
+    # premise: branch.find returns only nodes that are on the branch and meet the lookup (closure hooks)
+    from checks import index_ob
+    index_ob.index_obligations(ctx, 'C01.index')
+    index_ob.register_replayers(ctx, 'C01.index')
     bounded_soundness(ctx)
     from checks import c04
     ctx.replayers['C01.rule.'] = lambda r: c04.replay(dict(obligation=r.name, counterexample=r.cex, meta=r.meta))
